@@ -15,10 +15,10 @@ use super::isa;
 use super::super::{Cpu, StateType};
 use crate::bus::Bus;
 
-pub const N_INIT: usize = 14;
+pub const N_INIT: usize = 18;
 pub const N_CODE: usize = 10;
 pub const N_WR: usize = 8;
-pub const N_RD: usize = 20;
+pub const N_RD: usize = 24;
 pub const N_CY: usize = 6;
 
 pub struct Seam {
@@ -39,6 +39,9 @@ pub struct Seam {
     pub ioport_msgs: u32,
     pub last_port: u8,
     pub last_port_value: u8,
+    pub stdout_msgs: u32,
+    pub stdout_len: usize,
+    pub stdout_bytes: [u8; 4],
 }
 
 pub static mut SEAM: Seam = Seam {
@@ -58,6 +61,9 @@ pub static mut SEAM: Seam = Seam {
     ioport_msgs: 0,
     last_port: 0,
     last_port_value: 0,
+    stdout_msgs: 0,
+    stdout_len: 0,
+    stdout_bytes: [0; 4],
 };
 
 pub fn seam() -> &'static mut Seam {
@@ -92,6 +98,15 @@ impl Seam {
             self.overflow = true;
         }
         fresh
+    }
+    /// pre-load a known initial byte
+    pub fn seed(&mut self, a: u32, v: u8) {
+        if self.ni < N_INIT {
+            self.init[self.ni] = (a, v);
+            self.ni += 1;
+        } else {
+            self.overflow = true;
+        }
     }
     /// place the instruction bytes
     pub fn set_code(&mut self, base: u32, bytes: [u8; N_CODE]) {
@@ -214,4 +229,32 @@ pub fn bus_send_io_port_value(_b: &mut Bus, port: u8, value: u8) -> anyhow::Resu
 pub fn mes_call(_c: &mut Cpu) -> anyhow::Result<()> {
     seam().msgs += 1;
     Ok(())
+}
+
+/// message seam for `stdout:<text>`: records the payload instead of formatting it
+pub fn cpu_send_stdout_message(_c: &mut Cpu, string: &String) -> anyhow::Result<()> {
+    let s = seam();
+    s.stdout_msgs += 1;
+    let b = string.as_bytes();
+    s.stdout_len = b.len();
+    let mut i = 0;
+    while i < 4 {
+        if i < b.len() {
+            s.stdout_bytes[i] = b[i];
+        }
+        i += 1;
+    }
+    Ok(())
+}
+
+/// used where a path that would call read_abs24_b must be infeasible: any call is made visible
+pub fn forbidden_read_b(_c: &Cpu, _addr: u32) -> anyhow::Result<u8> {
+    seam().msgs += 1000;
+    Err(anyhow::anyhow!("forbidden"))
+}
+
+/// std model used only by the bounded C14 write harnesses: UTF-8 validation is the identity on the
+/// ASCII payloads those harnesses quantify over (the validation loops of core::str do not unwind in CBMC)
+pub fn from_utf8_ascii(v: Vec<u8>) -> Result<String, std::string::FromUtf8Error> {
+    Ok(unsafe { String::from_utf8_unchecked(v) })
 }
